@@ -565,20 +565,27 @@ def run_c20(prop, tier, seed):
         st = dict(inconclusive=repr(e))
         log(f"NOTE selftest inconclusive on a non-conforming tree: {e!r}")
 
+    # derive-macro types with partly implicit ids
+    dcov, ddrift, dmc, dst = run_derive(verdict, tier, seed, wd)
+    drift += ddrift
+    st = dict(st, derive=dst)
+    d_types = dcov.get("derive_types_compiled", 0)
+
     if verdict.violations == 0 and drift == 0:
         shutil.rmtree(wd, ignore_errors=True)
     coverage = dict(
-        states=mc["distinct"], transitions=mc["generated"], depth=mc["depth"], tlc_config=TIERS[prop][tier]["cfg"],
-        theorems=THEOREMS[prop], cases_enumerated=n_cases, cases_by_op=s["by_op"],
-        traces_validated_against_impl=s["cases"], canon_id_classes=s["classes"], distinct_real_type_ids=s["distinct_type_ids"],
+        states=mc["distinct"] + dmc["distinct"], transitions=mc["generated"] + dmc["generated"], depth=mc["depth"],
+        tlc_config=TIERS[prop][tier]["cfg"], tlc_states_by_config={TIERS[prop][tier]["cfg"]: mc["distinct"], DERIVE_TIERS[tier]["cfg"]: dmc["distinct"]},
+        theorems=THEOREMS[prop] + DERIVE_THEOREMS, cases_enumerated=n_cases, cases_by_op=s["by_op"],
+        traces_validated_against_impl=s["cases"] + d_types, canon_id_classes=s["classes"], distinct_real_type_ids=s["distinct_type_ids"],
         record_roundtrips=s["roundtrips_ok"], layout_references_resolved=s["layout_references_checked"],
         pinned_ids_checked=s["pinned_checked"], pinned_ids_rederived=s["pinned_ok"], drift=drift,
         presentations_with_tuples=s.get("tuple_cases", 0), presentations_with_real_tuple_impls=s.get("real_tuple_cases", 0),
         max_tuple_types_in_one_universe=s.get("max_tuple_types", 0),
-        evaluations=s["cases"], distinct_nontrivial=s["classes"],
+        evaluations=s["cases"] + d_types, distinct_nontrivial=s["classes"] + dcov.get("derive_canon_id_classes", 0),
         rule="distinct CanonId values (wire-relevant description + set of transitively referenced descriptions) among the "
-             "presentations whose real TypeId was computed",
-        samples=s.get("samples", []), selftest=st)
+             "presentations and the derived types whose real TypeId was computed (the derived types live in a schema of their own)",
+        samples=s.get("samples", []), selftest=st, **dcov)
     vlib.write_evidence(prop, tier, seed, "model_checking", coverage, time.time() - t0, verdict.violations, assumptions=[
         "the layout space is a bounded corpus enumerated from the model (11 fixed universes incl. recursive, mutually recursive, generics "
         "over built-ins, tuples (generic custom types) of arity 1..4 over built-ins and definitions, nested tuples, services, two schemas "
@@ -588,8 +595,15 @@ def run_c20(prop, tier, seed):
         "add_references hands out exactly the types the layout mentions (as generated code does); hand-written impls that omit "
         "references (core/src/introspection/test.rs basic_enum_type_id) are outside the model",
         "hash collisions are ignored",
-        "ids are computed on IR built through the public builders (and through the real generic impls of aldrin-core for built-ins and tuples); "
-        "macro- and codegen-generated types are not compiled by this check",
+        "ids of the universes are computed on IR built through the public builders (and through the real generic impls of aldrin-core for "
+        "built-ins and tuples)",
+        "derive-macro types: enums, structs with named fields and tuple structs of 0..MaxLen items whose ids are written at every subset "
+        "of positions (ids from a small set; plus seeded-random longer patterns and, for every pattern, the same assignment with all ids "
+        "written out as the code generator writes them); members are unit / u8 variants and required / optional u8 fields; patterns that "
+        "assign an id twice are outside the corpus (the macros accept them, but such a type has no well-defined wire layout); fallback "
+        "items, newtype structs (no ids) and the output of the real code generator are not compiled by this check (C16 compiles generated code)",
+        "a derive that numbers consistently (wire and layout agree) but not by the documented rule is DRIFT, as are failures of the derived "
+        "Deserialize: C20 is about the type id following the wire layout",
         "the service uuid and version are part of the hashed layout but not of the statement's list: a disagreement there is DRIFT",
     ])
     log(f"[{prop}] {tier} seed={seed}: violations={verdict.violations} drift={drift} wall={time.time() - t0:.1f}s")
@@ -605,11 +619,34 @@ def run(prop, tier, seed):
     raise vlib.ToolError(f"schema_checks does not serve {prop}")
 
 
+def replay_derive(prop, path, data, seed):
+    """A derived-type finding: the recorded pattern(s) are turned into a (tiny) corpus crate again, compiled against the current
+    tree and judged as in a run."""
+    verdict = vlib.Verdict(prop)
+    if "cases" in data["case"]:     # a crash of the whole corpus process: the first recorded types
+        vecs = data["case"]["cases"]
+    else:
+        vecs = [data["case"]] + ([data["other"]] if isinstance(data.get("other"), dict) and data["other"].get("derive") else [])
+    vecs = [{k: v[k] for k in ("id", "derive", "kind", "pat", "ids", "def", "canon") if k in v} for v in vecs]
+    for v in vecs:
+        v.setdefault("positional", None)
+    build()
+    wd = vlib.workdir(f"c20-replay-{os.getpid()}")
+    pkg = "c20-derive-corpus-replay"
+    s, drift, build_s = derive_pipeline(verdict, vecs, wd, pkg, os.path.join(vlib.workdir("c20-derive"), pkg), "replay", seed, 1500)
+    log(f"[replay] {data.get('why', '')}: {[v['id'] for v in vecs]} compiled against the current tree -> "
+        f"{s['violation_count'] if s else 'crash'} violation(s), {drift} drift(s)")
+    shutil.rmtree(wd, ignore_errors=True)
+    return verdict
+
+
 def replay(prop, path, seed):
     verdict = vlib.Verdict(prop)
     data = json.load(open(path))
     if "case" not in data:
         raise vlib.ToolError("replay file without a case")
+    if prop == "C20" and isinstance(data["case"], dict) and data["case"].get("derive"):
+        return replay_derive(prop, path, data, seed)
     build()
     s = vlib.run_driver(DRIVER[prop], ["replay", "--file", path])
     log(f"[replay] {data.get('why', '')}: re-run on the current tree -> {s['violation_count']} violation(s)")
